@@ -1,11 +1,11 @@
 package main
 
 import (
-	"github.com/pip-services3-gox/pip-services3-expressions-gox/tokenizers"
-	calctok "github.com/pip-services3-gox/pip-services3-expressions-gox/calculator/tokenizers"
-	"strings"
 	"fmt"
+	calctok "github.com/pip-services3-gox/pip-services3-expressions-gox/calculator/tokenizers"
+	"github.com/pip-services3-gox/pip-services3-expressions-gox/tokenizers"
 	"sort"
+	"strings"
 
 	sio "github.com/pip-services3-gox/pip-services3-expressions-gox/io"
 	"github.com/pip-services3-gox/pip-services3-expressions-gox/tokenizers/generic"
